@@ -202,6 +202,23 @@ def _shard_flow(args):
     return {"n": n, "vb": vb}
 
 
+H_CODES = ["1210", "1310", "1810", "1b10", "1c10", "040020", "020020", "0500200", "fe", "06", "00", "0812", "4003", "9004", "32c81020"]
+H_ADDRS = [0x1000, 0x1800, 0x21000, 0x2FF00]
+
+
+def _part_h(args):
+    """Process history: the same instruction bytes executed at several addresses, in the given order, each in a fresh
+    emulator of THIS (fresh) worker process. Shards with different orders must agree on every (bytes, address)."""
+    order, st = args
+    out = {}
+    for code_hex, addr in order:
+        d = bytes.fromhex(code_hex if len(code_hex) % 2 == 0 else code_hex + "0")
+        regs, mem, fill = c06.build_case(d + bytes(4), st, addr)
+        o = pycpu.run(regs, mem, fill, steps=1)
+        out[f"{code_hex}@{addr:x}"] = (arch(o), sorted(o["writes"]))
+    return out
+
+
 def _loop_code(lp: List[str]) -> bytes:
     return b"".join(bytes.fromhex(x) for x in lp)
 
@@ -338,6 +355,18 @@ def run(ctx) -> None:
     fl = list(flow.scripts(5 if ctx.thorough else 4))
     resF = pmap(_shard_flow, [(c, st_a) for c in chunks(fl, nproc() * 2)])
     ctx.log(f"part F: {sum(r['n'] for r in resF)} control-flow scripts, last instruction same object vs fresh")
+    # part H: process-wide history (caches keyed without the address, module-level state)
+    pairs_h = [(c, a) for c in H_CODES for a in H_ADDRS]
+    orders = [pairs_h, list(reversed(pairs_h)), sorted(pairs_h, key=lambda x: (x[1], x[0])), sorted(pairs_h, key=lambda x: (-x[1], x[0]))]
+    resH = pmap(_part_h, [(o, c06_state(st_a) | {"bpx": tuple(st_a["bpx"])}) for o in orders])
+    for k in resH[0]:
+        vals = [r[k] for r in resH]
+        if any(v != vals[0] for v in vals[1:]):
+            i = next(i for i, v in enumerate(vals) if v != vals[0])
+            ctx.violation(f"C07/python/process-history/{c06._mnemonic(bytes.fromhex(k.split('@')[0] if len(k.split('@')[0]) % 2 == 0 else k.split('@')[0] + '0') + bytes(4))}",
+                          f"{k}: the result of a fresh emulator depends on which instructions this process executed before "
+                          f"(order 0: {str(vals[0])[:120]} / order {i}: {str(vals[i])[:120]})", {"part": "H", "key": k, "order": i})
+    ctx.coverage["part_H_process_history_runs"] = sum(len(r) for r in resH)
     from . import c18_cpu
     ctx.coverage["part_G_runtime_step_splits"] = c18_cpu.run_step_split(ctx, "C07/rust-runtime/step-split")
     K = 12 if ctx.thorough else 8
@@ -414,6 +443,13 @@ def replay(ctx, w) -> Optional[str]:
     if w.get("cpu"):
         from . import c18_cpu
         return c18_cpu.replay(w)
+    if part == "H":
+        st0 = c06.states_for(False, 0)[0]
+        pairs_h = [(c, a) for c in H_CODES for a in H_ADDRS]
+        orders = [pairs_h, list(reversed(pairs_h)), sorted(pairs_h, key=lambda x: (x[1], x[0])), sorted(pairs_h, key=lambda x: (-x[1], x[0]))]
+        res = pmap(_part_h, [(o, st0) for o in (orders[0], orders[w["order"]])])
+        a, b = res[0][w["key"]], res[1][w["key"]]
+        return None if a == b else f"{w['key']}: {str(a)[:100]} vs {str(b)[:100]}"
     if part == "F":
         r = _shard_flow(([tuple(w["flow"])], st))
         for sig, (cnt, wl) in r["vb"].d.items():
